@@ -72,13 +72,14 @@ def facts_path(config="default", repo=None):
     try:
         if os.path.exists(out) and os.path.getsize(out) > 0:
             return out
-        # drop stale fact files of this configuration
-        for f in os.listdir(CACHE):
-            if f.startswith("facts-%s-" % config):
-                try:
-                    os.unlink(os.path.join(CACHE, f))
-                except OSError:
-                    pass
+        # keep the cache small: drop the oldest entries beyond 48 files
+        ents = sorted((os.path.getmtime(os.path.join(CACHE, f)), f) for f in os.listdir(CACHE)
+                      if f.startswith("facts-") or f.startswith("witness-"))
+        for _, f in ents[:-48]:
+            try:
+                os.unlink(os.path.join(CACHE, f))
+            except OSError:
+                pass
         tmp = out + ".tmp%d" % os.getpid()
         r = subprocess.run(
             [os.path.join(VERIF, "engine/run_facts.sh"), repo, tmp] + CONFIGS[config],
